@@ -834,12 +834,22 @@ impl DhcpService {
             let mut pool = self.pool.lock().await;
             let lockedconf = self.conf.read().await;
 
-            reply = match handle_pkt(
-                &mut pool,
-                &request,
-                get_serverids(&self.serverids).await,
-                &lockedconf,
-            ) {
+            /* Our own interface addresses are always ours, even if (eg straight after a restart)
+             * we have not sent a reply from them yet.
+             */
+            let mut serverids = get_serverids(&self.serverids).await;
+            serverids.extend(
+                self.netinfo
+                    .get_if_prefixes()
+                    .await
+                    .iter()
+                    .filter_map(|(ip, _)| match ip {
+                        std::net::IpAddr::V4(ip4) => Some(*ip4),
+                        _ => None,
+                    }),
+            );
+
+            reply = match handle_pkt(&mut pool, &request, serverids, &lockedconf) {
                 Err(e) => {
                     log::warn!(
                         "{}: Failed to handle {}: {}",
